@@ -299,7 +299,9 @@ Fixpoint lookup (id : Z) (l : list req) : option req :=
   match l with [] => None | r :: t => if (cid r =? id)%Z then Some r else lookup id t end.
 Fixpoint remove (id : Z) (l : list req) : list req :=
   match l with [] => [] | r :: t => if (cid r =? id)%Z then t else r :: remove id t end.
-Definition put (r : req) (l : list req) : list req := r :: remove (cid r) l.
+(* replace in place; append when the id is new (the C table is a set keyed by id) *)
+Fixpoint put (r : req) (l : list req) : list req :=
+  match l with [] => [r] | x :: t => if (cid x =? cid r)%Z then r :: t else x :: put r t end.
 
 Definition fresh (id : Z) (s : N) (a : str) (g : list N) (p : N) (tm : bool) : req :=
   {| cid := id; ser := s; addr := a; port := p; raddr := g;
